@@ -902,6 +902,148 @@ pub fn eval_rrset(toks: &[&str]) -> String {
     )
 }
 
+// ---------------------------------------------------------------------------------------------
+// all views of one message (C08)
+// ---------------------------------------------------------------------------------------------
+
+fn marker_fields(m: &RecordMarker) -> String {
+    let s = show_marker(m); // M:off:toff:type:class:ttl:rdlen:sec
+    s[2..].to_string()
+}
+
+fn typed_at(mr: &MessageReader, m: &RecordMarker) -> String {
+    let t = m.rtype().value();
+    let name = type_name(t);
+    if ALL_TYPES.contains(&t) {
+        with_rtype!(name, D, show_e(&mr.record_data_at::<D>(m), |d| d.show()), "?".into())
+    } else {
+        show_e(&mr.record_data_bytes_at(m), |b| format!("raw:{}", to_hex(b)))
+    }
+}
+
+fn typed_seq(mr: &mut MessageReader, m: &RecordMarker) -> String {
+    let t = m.rtype().value();
+    let name = type_name(t);
+    if ALL_TYPES.contains(&t) {
+        with_rtype!(name, D, show_e(&mr.record_data::<D>(m), |d| d.show()), "?".into())
+    } else if t == 41 {
+        show_e(&mr.opt_record(m), |o| format!("opt:{}:{}:{}", o.udp_payload_size(), o.rcode_extension(), o.version()))
+    } else {
+        show_e(&mr.record_data_bytes(m), |b| format!("raw:{}", to_hex(b)))
+    }
+}
+
+/// one sequential pass; `kind`: 0 = markers + skip, 1 = header refs + skip, 2 = owned heap names +
+/// typed data, 3 = owned inline names + typed data. Items: `Q…` questions then one item per record.
+fn seq_view(buf: &[u8], kind: u8) -> (String, Vec<RecordMarker>) {
+    let mut items: Vec<String> = Vec::new();
+    let mut markers = Vec::new();
+    let mut mr = match MessageReader::new(buf) {
+        Ok(m) => m,
+        Err(e) => return (format!("!E:{}", show_err(&e)), markers),
+    };
+    match mr.header() {
+        Ok(h) => items.push(format!("H:{}:{}:{}:{}:{}:{}", h.id, u16::from(h.flags), h.qd_count, h.an_count, h.ns_count, h.ar_count)),
+        Err(e) => return (format!("!E:{}", show_err(&e)), markers),
+    }
+    while mr.has_questions() {
+        if kind <= 1 {
+            match mr.question_ref() {
+                Ok(q) => items.push(format!("Q:{}:{}:{}", if kind == 1 { show_name_ref(&q.qname) } else { "-".into() }, q.qtype.value(), q.qclass.value())),
+                Err(e) => {
+                    items.push(format!("!E:{}", show_err(&e)));
+                    return (items.join(";"), markers);
+                }
+            }
+        } else {
+            match mr.question() {
+                Ok(q) => items.push(format!("Q:{}:{}:{}", to_hex(q.qname.as_str().as_bytes()), q.qtype.value(), q.qclass.value())),
+                Err(e) => {
+                    items.push(format!("!E:{}", show_err(&e)));
+                    return (items.join(";"), markers);
+                }
+            }
+        }
+    }
+    while mr.has_records() {
+        let (m, name): (RecordMarker, String) = match kind {
+            0 => match mr.record_marker() {
+                Ok(m) => (m, "-".into()),
+                Err(e) => {
+                    items.push(format!("!E:{}", show_err(&e)));
+                    break;
+                }
+            },
+            1 => match mr.record_header_ref() {
+                Ok(h) => (h.marker().clone(), show_name_ref(h.name())),
+                Err(e) => {
+                    items.push(format!("!E:{}", show_err(&e)));
+                    break;
+                }
+            },
+            2 => match mr.record_header::<Name>() {
+                Ok(h) => (h.marker().clone(), nhex(h.name())),
+                Err(e) => {
+                    items.push(format!("!E:{}", show_err(&e)));
+                    break;
+                }
+            },
+            _ => match mr.record_header::<InlineName>() {
+                Ok(h) => (h.marker().clone(), to_hex(h.name().as_str().as_bytes())),
+                Err(e) => {
+                    items.push(format!("!E:{}", show_err(&e)));
+                    break;
+                }
+            },
+        };
+        markers.push(m.clone());
+        let data = if kind <= 1 {
+            show_e(&mr.skip_record_data(&m), |_| "-".into())
+        } else {
+            typed_seq(&mut mr, &m)
+        };
+        let failed = data.starts_with("E:");
+        items.push(format!("R:{}:{}:{}", marker_fields(&m), name, data));
+        if failed {
+            break;
+        }
+    }
+    (items.join(";"), markers)
+}
+
+/// `views <hex>` -> `M=<…> | R=<…> | HH=<…> | HI=<…> | AT=<…> | I=<…>`
+pub fn eval_views(toks: &[&str]) -> String {
+    if toks.len() != 2 {
+        return "bad-request".into();
+    }
+    let bytes = match from_hex(toks[1]) {
+        Some(b) => b,
+        None => return "bad-request".into(),
+    };
+    let g = Guarded::new(&bytes, true);
+    let buf = g.as_slice();
+    let (m, markers) = seq_view(buf, 0);
+    let (r, _) = seq_view(buf, 1);
+    let (hh, _) = seq_view(buf, 2);
+    let (hi, _) = seq_view(buf, 3);
+    // random access with the markers of the marker view, on a fresh reader
+    let at = match MessageReader::new(buf) {
+        Ok(mr) => markers
+            .iter()
+            .map(|m| format!("{}~{}", typed_at(&mr, m), show_e(&mr.record_data_bytes_at(m), |b| to_hex(b))))
+            .collect::<Vec<_>>()
+            .join(";"),
+        Err(e) => format!("!E:{}", show_err(&e)),
+    };
+    let it = eval_iter(&["iter", toks[1]]);
+    format!("M={} | R={} | HH={} | HI={} | AT={} | I={}", m, r, hh, hi, at, it)
+}
+
+pub fn gen_views(r: &mut Rng, _i: u64) -> String {
+    let (buf, _, _) = gen_message_bytes(r);
+    format!("views {}", to_hex(&buf))
+}
+
 pub fn eval_nameeq(toks: &[&str]) -> String {
     if toks.len() != 4 {
         return "bad-request".into();
@@ -925,7 +1067,9 @@ pub fn eval_nameeq(toks: &[&str]) -> String {
         (Ok(x), Ok(y)) if x == y => return "ne-is-not-negation".into(),
         _ => {}
     }
-    show_res(&r, |v| format!("{}", v))
+    let n1 = show_name_ref(&a);
+    let n2 = show_name_ref(&b);
+    format!("{} n1={} n2={}", show_res(&r, |v| format!("{}", v)), n1, n2)
 }
 
 // ---------------------------------------------------------------------------------------------
